@@ -130,7 +130,7 @@ func (channel *Channel) basicGet(method *amqp.BasicGet) (err *amqp.Error) {
 
 	dTag := channel.NextDeliveryTag()
 	if !method.NoAck {
-		channel.AddUnackedMessage(dTag, "", qu.GetName(), message)
+		channel.AddUnackedMessage(dTag, "", qu.GetName(), qu, message)
 	}
 	qu.GetMetrics().Unacked.Counter.Inc(1)
 	channel.server.GetMetrics().Unacked.Counter.Inc(1)
